@@ -67,6 +67,8 @@ Cat(ss) == FlattenSeq(ss)
 (*  pk    thread -> roots whose finish / cancel signal sits in the thread's *)
 (*        overflow list (its queue was full); exc: roots whose parked       *)
 (*        signal was dropped when the thread exited with a full queue       *)
+(*  ad    adapter name -> [h, kind, done, g, open]: a span bound to a future, *)
+(*        stream or sink with in_span(), or an enter_on_poll() adapter      *)
 (*  tm    span / event name -> clock brackets of the calls that stamp its     *)
 (*        times: [b0, b1] monotonic and [w0, w1] wall clock around the call *)
 (*        that starts it, [e0, e1] monotonic around the call that ends it   *)
@@ -75,7 +77,7 @@ Cat(ss) == FlattenSeq(ss)
 AbsInit(cfg) ==
   [cfg |-> cfg, sp |-> EmptyFn, rt |-> EmptyFn, ctx |-> EmptyFn, sc |-> EmptyFn, ls |-> EmptyFn,
    att |-> EmptyFn, exp |-> {}, opt |-> {}, dl |-> {}, never |-> {}, claims |-> {}, hints |-> {}, cyc |-> {},
-   fl |-> EmptyFn, cmds |-> EmptyFn, cut |-> {}, qs |-> {}, pk |-> EmptyFn, exc |-> {}, got |-> <<>>, gotrecs |-> <<>>, tm |-> EmptyFn, viol |-> <<>>]
+   fl |-> EmptyFn, cmds |-> EmptyFn, cut |-> {}, qs |-> {}, pk |-> EmptyFn, exc |-> {}, got |-> <<>>, gotrecs |-> <<>>, tm |-> EmptyFn, ad |-> EmptyFn, polled |-> EmptyFn, viol |-> <<>>]
 
 Recording(a) == a.cfg.enabled /\ a.cfg.ready
 
@@ -411,6 +413,43 @@ CallCancel(a, e) ==
                  !.exp = {x \in @ : x.r # e.h}, !.opt = {x \in @ : x.r # e.h}]
   ELSE a
 
+----------------------------------------------------------------------------
+(* Adapters (C13, C14).  in_span(span): during every poll the span is the local parent and the     *)
+(* previous context is back afterwards; the span finishes exactly when the inner future / stream / *)
+(* sink completes (or the adapter is dropped), and what was recorded under it in that last call is *)
+(* part of its trace.  enter_on_poll(name): one local span per poll.                               *)
+(* The scripted inner future reports `pollend` right before it returns: from then on the adapter's *)
+(* own epilogue (scope closed, span finished) may already be visible to the collector.             *)
+AdProp(a, n) == IF \E f \in DOMAIN a.ad : a.ad[f].h = n
+                THEN IF a.ad[CHOOSE f \in DOMAIN a.ad : a.ad[f].h = n].kind = "fut" THEN "C13" ELSE "C14"
+                ELSE None
+CallFNew(a, e) == [a EXCEPT !.ad = Put(@, e.f, [h |-> F(e, "h"), kind |-> e.kind, done |-> FALSE, g |-> None, open |-> FALSE, finby |-> None])]
+CallFPoll(a0, e) ==
+  LET d == a0.ad[e.f]
+      a == [a0 EXCEPT !.polled = Put(@, e.t, d.kind)] IN
+  IF d.kind = "eop"
+  THEN [CallLEnter(a, [t |-> e.t, l |-> e.g]) EXCEPT !.ad[e.f].g = e.g, !.ad[e.f].open = TRUE]
+  ELSE IF d.done THEN a
+  ELSE [CallSetLp(a, [t |-> e.t, g |-> e.g, h |-> d.h]) EXCEPT !.ad[e.f].g = e.g, !.ad[e.f].open = TRUE]
+CallPollEnd(a, e) ==
+  LET d == a.ad[e.f] IN
+  IF ~d.open THEN a
+  ELSE IF d.kind = "eop" THEN [CallLExit(a, [t |-> e.t, l |-> d.g]) EXCEPT !.ad[e.f].open = FALSE]
+  ELSE LET a1 == [CallDropGuard(a, [t |-> e.t, g |-> d.g]) EXCEPT !.ad[e.f].open = FALSE]
+           \* what the last call recorded under the span counts as finished before the span
+           mine == {x \in a1.exp : x.by = e.t /\ ~x.due}
+           a2 == [a1 EXCEPT !.exp = (@ \ mine) \cup {[x EXCEPT !.due = TRUE] : x \in mine}] IN
+       IF e.fin /\ ~d.done THEN [CallDrop(a2, [t |-> e.t, h |-> d.h]) EXCEPT !.ad[e.f].done = TRUE, !.ad[e.f].finby = e.t] ELSE a2
+RetFPoll(a, e) ==
+  LET d == a.ad[e.f] IN
+  IF d.done /\ d.finby = e.t /\ d.h # None /\ Has(a.rt, d.h) THEN [a EXCEPT !.rt[d.h].ret = TRUE] ELSE a
+CallFDrop(a, e) ==
+  LET d == a.ad[e.f] IN
+  IF d.kind = "eop" \/ d.done THEN a ELSE [CallDrop(a, [t |-> e.t, h |-> d.h]) EXCEPT !.ad[e.f].done = TRUE, !.ad[e.f].finby = e.t]
+RetFDrop(a, e) ==
+  LET d == a.ad[e.f] IN
+  IF d.done /\ d.finby = e.t /\ d.h # None /\ Has(a.rt, d.h) THEN [a EXCEPT !.rt[d.h].ret = TRUE] ELSE a
+
 \* overflow bookkeeping: a forced signal (finish / cancel of a root) that found the queue full is
 \* parked; it is pushed, in order, by the thread's later calls or at its exit; at exit with a full
 \* queue it is dropped (the guarantee of C09 ends with the thread)
@@ -438,7 +477,9 @@ RetFlush(a, e) ==
   ELSE a
 
 \* local context must be what the abstract scopes say (C10), with the right identifiers (C11)
-RetCtxLocal(a, e) == CheckCtx(a, "C10", LocalCtx(a, e.t), e.ctx)
+\* on a thread that polls adapters the local context is the adapters' business (C13 / C14)
+RetCtxLocal(a, e) ==
+  CheckCtx(a, IF Has(a.polled, e.t) THEN (IF a.polled[e.t] \in {"fut", "eop"} THEN "C13" ELSE "C14") ELSE "C10", LocalCtx(a, e.t), e.ctx)
 RetCtxSpan(a, e) == CheckCtx(a, "C11", SpanCtx(a, e.h), e.ctx)
 RetLEnter(a, e) == IF LocalLive(a, e.t, e.l) THEN Hint(a, e.l, F(e, "id")) ELSE a
 RetSpanId(a, e) == IF Has(a.sp, e.h) /\ ~a.sp[e.h].noop /\ a.sp[e.h].lin # <<>> THEN Hint(a, e.h, F(e, "id")) ELSE a
@@ -501,7 +542,7 @@ TakeRecord(a, rec) ==
        THEN Viol(a, IF a.cfg.cancelable THEN "C03" ELSE "C01", "delivered-again", rec)
        ELSE IF \E x \in a.exp \cup a.opt \cup a.dl : x.n = rec.name
        THEN Viol(a, "C02", "wrong-trace", rec)
-       ELSE Viol(a, IF a.cfg.cancelable THEN "C03" ELSE "C01", "unexpected-record", rec)
+       ELSE Viol(a, IF AdProp(a, rec.name) # None THEN AdProp(a, rec.name) ELSE IF a.cfg.cancelable THEN "C03" ELSE "C01", "unexpected-record", rec)
   ELSE LET fit == {e \in C : ParentFits(a, e, rec)}
            open == {e \in C : ParentOpen(a, e)}
            e == IF fit # {} THEN CHOOSE x \in fit : TRUE ELSE IF open # {} THEN CHOOSE x \in open : TRUE ELSE CHOOSE x \in C : TRUE
@@ -518,7 +559,7 @@ TakeRecord(a, rec) ==
            \* an attachment can only be missing legitimately when the trace's start was refused (C09)
            a4 == IF cb = "ok" THEN a3
                  ELSE IF cb = "missing-attachment" /\ e.r \in a.qs THEN Viol(a3, "C09", "attachment-lost-after-refused-start", rec)
-                 ELSE ViolK(a3, IF a.rt[e.r].dcancel THEN "C04" ELSE "C06", cb, [rec |-> rec, must |-> e.must],
+                 ELSE ViolK(a3, IF a.rt[e.r].dcancel THEN "C04" ELSE IF AdProp(a, e.n) # None THEN AdProp(a, e.n) ELSE "C06", cb, [rec |-> rec, must |-> e.must],
                             IF cb = "missing-attachment" /\ cid \in a.cut THEN "cut"
                             ELSE IF cb \in {"missing-attachment", "duplicate-attachment"} /\ twin THEN "twin" ELSE None)
            tb == TimeBad(a, rec)
@@ -543,7 +584,8 @@ BatchRules(a0, a, got) ==
                     ELSE LET r == CHOOSE x \in rs : TRUE
                              b == bad(r)
                              k == IF b \in {"incomplete", "without-root-record"} /\ a0.rt[r].cid \in a.cut THEN "cut" ELSE None
-                             st1 == IF b = "ok" THEN st ELSE ViolK(st, "C03", b, [root |-> r], k)
+                             st1 == IF b = "ok" THEN st
+                                    ELSE ViolK(st, IF b = "incomplete" /\ AdProp(a0, r) # None THEN AdProp(a0, r) ELSE "C03", b, [root |-> r], k)
                          IN go([st1 EXCEPT !.rt[r].done = TRUE, !.exp = {x \in @ : x.r # r}, !.opt = {x \in @ : x.r # r},
                                            !.dl = @ \cup {[n |-> x.n, tr |-> x.tr, r |-> x.r, par |-> x.par, ci |-> x.ci] : x \in {y \in st1.opt : y.r = r}}],
                                rs \ {r}) IN
@@ -583,9 +625,11 @@ BeforeProcess(a, e) == [a EXCEPT !.cut = @ \cup CutNow(a.cmds), !.cmds = Prune(a
 CycEnd(a, e) ==
   LET late == a.cyc \cap a.exp
       a1 == [a EXCEPT !.cyc = {}]
-      k == IF \A x \in late : a.rt[x.r].cid \in a.cut THEN "cut" ELSE None IN
+      k == IF \A x \in late : a.rt[x.r].cid \in a.cut THEN "cut" ELSE None
+      adl == {x \in late : AdProp(a, x.n) # None} IN
   IF late # {}
-  THEN ViolK(a1, IF a.cfg.cancelable THEN "C03" ELSE "C01", "not-delivered-by-cycle", {[n |-> x.n, r |-> x.r] : x \in late}, k)
+  THEN ViolK(a1, IF adl # {} THEN AdProp(a, (CHOOSE x \in adl : TRUE).n) ELSE IF a.cfg.cancelable THEN "C03" ELSE "C01",
+             "not-delivered-by-cycle", {[n |-> x.n, r |-> x.r] : x \in late}, k)
   ELSE a1
 
 \* at quiescence (no call in progress, two full cycles since the last one): the collector keeps an
@@ -623,6 +667,10 @@ Call0(a, e) ==
     [] e.op = "drop"      -> CallDrop(a, e)
     [] e.op = "cancel"    -> CallCancel(a, e)
     [] e.op = "flush"     -> CallFlush(a, e)
+    [] e.op = "fnew"      -> CallFNew(a, e)
+    [] e.op = "fpoll"     -> CallFPoll(a, e)
+    [] e.op = "pollend"   -> CallPollEnd(a, e)
+    [] e.op = "fdrop"     -> CallFDrop(a, e)
     [] OTHER              -> a
 
 \* clock brackets first (they need the scope as it is before the call closes it)
@@ -663,6 +711,8 @@ Ret(a, e) ==
               [] e.op = "ctxs"   -> RetCtxSpan(a0, e)
               [] e.op = "elapsed" -> RetElapsed(a0, e)
               [] e.op = "flush"  -> RetFlush(a0, e)
+              [] e.op = "fpoll"  -> RetFPoll(a0, e)
+              [] e.op = "fdrop"  -> RetFDrop(a0, e)
               [] e.op = "drop" /\ Has(a0.rt, e.h) -> [a0 EXCEPT !.rt[e.h].ret = TRUE]
               [] OTHER           -> a0 IN
   Settle(a1, e.t, Refused(e))
